@@ -1328,6 +1328,20 @@ class C20(Base):
                      "off": self.DEF["off"], "now": gen.NOW, "flags": [], "file": None, "file_style": "lf",
                      "mode": mode, "list_flag_both": False, "json": js}
                 yield self.mk_case(m, "cli-empty-document")
+        # a name given both in the config file and by flag (once or twice): the target set is the union
+        sp2 = gen.Spelling(self.DEF["ds"], self.DEF["de"], self.DEF["tl"], self.DEF["rm"])
+        lines2 = []
+        for nm in ["a", "b", "c d", "zz"]:
+            e = gen.El("rm", True)
+            e.name = nm
+            e.id = 1                 # plain spelling
+            lines2 += [sp2.open_tag(e), "code_" + nm.replace(" ", "_") + "();", sp2.close_tag(e), "keep();"]
+        for infile, flags in [(["a", "b"], ["a"]), (["a", "b"], ["b", "a"]), (["a"], ["a", "a"]), (["a", "c d"], ["c d"]), (["a", "a"], ["a"]), (["b"], ["a", "b"])]:
+            for mode, js in [("clean", False), ("list", True), ("list_all", False)]:
+                m = {"src": "\n".join(lines2) + "\n", "ds": self.DEF["ds"], "de": self.DEF["de"], "tl": self.DEF["tl"], "rm": self.DEF["rm"],
+                     "off": self.DEF["off"], "now": gen.NOW, "flags": flags, "file": infile, "file_style": "lf",
+                     "mode": mode, "list_flag_both": False, "json": js}
+                yield self.mk_case(m, "cli-overlap")
         # option values that are empty or blank: they are values like any other, not requests for the default
         body = ("keep();\n" + self.DEF["ds"] + "time-limited to='2000-01-01 00:00:00'" + self.DEF["de"] + "\nold();\n" + self.DEF["ds"] + "/time-limited" + self.DEF["de"] + "\n"
                 + self.DEF["ds"] + "removal-marker name='a'" + self.DEF["de"] + "\ngone();\n" + self.DEF["ds"] + "/removal-marker" + self.DEF["de"] + "\n"
